@@ -138,7 +138,7 @@ META = {
         "design_ref": "DESIGN.md §3 C07",
     },
     "C11": {
-        "text": "Coq refinement theorem (no bounds): the linked structure of FastOps::mutate_p, transcribed branch by branch (quick install, unlink, relink, cursor advance), started from the structure and cursor a scan yields, ends in exactly the structure and cursor a scan of the updated slots yields — for every string, position and decision; by induction every reachable structure equals the scan of its contents. The model is replayed on the real mutation sequences and must reproduce the implementation's complete link structure. Also: theorems about the scan-based specification (unbounded strings): occupied positions are exactly the slots holding an operator, in time order; n is their number; first/last are the extremes; per-bond counts add up to n; "
+        "text": "Coq refinement theorem (no bounds): the linked structure of FastOps::mutate_p, transcribed branch by branch (quick install, unlink, relink, cursor advance), started from the structure and cursor a scan yields, ends in exactly the structure and cursor a scan of the updated slots yields — for every string, position and decision; by induction every reachable structure equals the scan of its contents. Also proved: the cursor construction fill_args_at_p (backward walk over the links with early exit) builds exactly the scan cursor, so mutate_subsection as a whole refines (side condition: every stored operator acts on >= 1 variable; without it a refutation theorem with witness); following the per-variable / global links enumerates exactly the operators on a variable / the occupied slots in time order (what constant_ops_on_var, cluster and loop walks rely on). The model is replayed on the real mutation sequences and must reproduce the implementation's complete link structure. Also: theorems about the scan-based specification (unbounded strings): occupied positions are exactly the slots holding an operator, in time order; n is their number; first/last are the extremes; per-bond counts add up to n; "
                 "'variable has operators' holds iff some stored operator acts on it. The implementation's private linked structure (every previous/next link, global and per variable, n, p_ends, var_ends, bond counters) is read through serde after EVERY mutation "
                 "of long random mutation sequences (mutate_ps, sub-ranges, mutate_ops, sub-variable cursors, threaded mutate_p cursors, set_cutoff, new_from_ops, and the real samplers' histories) and compared in Coq with that specification; getters are compared with scans as well.",
         "note": "Trusted: Coq kernel + vm_compute; serde view of the container; Model/FastOps.v transcription (validated by replaying real mutate_p sweeps). Not transcribed: fill_args_at_p, clear_and_install_ops, mutate_subsection_ops, Varlist cursors (differential only); panic freedom is not a theorem.",
